@@ -9,7 +9,7 @@ META = {
                 technique='MIR path enumeration of generated constructors vs reference model (translation validation)',
                 text='For every corpus declaration (inner type x sanitizer list x validator list x bound spelling x const_fn/generics) the MIR of try_new/new is '
                      'enumerated path by path with generated callees inlined; the extracted guard program (sanitizer chain, ordered checks with relation, measured '
-                     'quantity and folded bound, rejecting siblings, absence of panic edges) must equal the reference model. Holds for all inputs of each analysed declaration.',
+                     'quantity and folded bound, rejecting siblings, absence of panic edges) must equal the reference model. Holds for all inputs of each analysed declaration. The generator is additionally linted for profile- or cfg-dependent tokens in generated code (G-PROFILE): the analysed expansion is the dev-profile one.',
                 note=TRUSTED),
     'C03': dict(level='other', design_ref='DESIGN.md 4.2 R-DELEG, 5/C03',
                 technique='outcome-table equivalence of conversion bodies and the constructor (path-exhaustive dataflow)',
